@@ -3,7 +3,8 @@
    instances are exactly the invocations in the source) and the `LoadStore` impls of RawU8 / RawU16 / RawU24 / RawU32
    (core/src/pixelcolor/raw/load_store.rs), regenerated from the source on every run by translate/r2c
    (coq/Gen/SrcRawData.v, coq/Gen/SrcLoadStoreBytes.v), equal Rawdata.mask / bits / raw_new and Rawdata.load_u8 /
-   store_u8 / load_bytes / store_bytes on the 64-bit usize instance (the translator's usize), for every non-negative index.
+   store_u8 / load_bytes / store_bytes for every width U of usize the model covers (16 / 32 / 64 bit; the generated definitions
+   take it as the implicit Casts.UsizeW, identified with the model's Usize by Proofs/SrcUsize.v), for every non-negative index.
    Slices are lists; `[u8; N]` is the N-tuple; `index.checked_mul(N)` is Casts.checked_usize; the sub-slice chains
    `get(start..)`, `get(0..N)`, `get_mut(..)` + `copy_from_slice` are bounds-checked windows (None / Err out of range).
    res_ok reads the generated `Result<(), OutOfBoundsError>` (a sum) as the model's bool.  Statements only. *)
@@ -29,27 +30,31 @@ Proof. exact src_RawU8_load_eq. Qed.
 Theorem C11_src_RawU8_store_is_model : forall v buf index, 0 <= index ->
   (fst (src_RawU8_store_O v buf index), res_ok (snd (src_RawU8_store_O v buf index))) = store_u8 v buf index.
 Proof. exact src_RawU8_store_eq. Qed.
-Theorem C11_src_RawU16_load_is_model : forall alt buf index, 0 <= index ->
-  src_RawU16_load_O alt buf index = load_bytes (U := usize64) U16 alt buf index.
-Proof. exact src_RawU16_load_eq. Qed.
-Theorem C11_src_RawU16_store_is_model : forall alt v buf index, 0 <= index ->
-  (fst (src_RawU16_store_O alt v buf index), res_ok (snd (src_RawU16_store_O alt v buf index))) = store_bytes (U := usize64) U16 alt v buf index.
-Proof. exact src_RawU16_store_eq. Qed.
-Theorem C11_src_RawU24_load_is_model : forall alt buf index, 0 <= index ->
-  src_RawU24_load_O alt buf index = load_bytes (U := usize64) U24 alt buf index.
-Proof. exact src_RawU24_load_eq. Qed.
-Theorem C11_src_RawU24_store_is_model : forall alt v buf index, 0 <= index ->
-  (fst (src_RawU24_store_O alt v buf index), res_ok (snd (src_RawU24_store_O alt v buf index))) = store_bytes (U := usize64) U24 alt v buf index.
-Proof. exact src_RawU24_store_eq. Qed.
-Theorem C11_src_RawU32_load_is_model : forall alt buf index, 0 <= index ->
-  src_RawU32_load_O alt buf index = load_bytes (U := usize64) U32 alt buf index.
-Proof. exact src_RawU32_load_eq. Qed.
-Theorem C11_src_RawU32_store_is_model : forall alt v buf index, 0 <= index ->
-  (fst (src_RawU32_store_O alt v buf index), res_ok (snd (src_RawU32_store_O alt v buf index))) = store_bytes (U := usize64) U32 alt v buf index.
-Proof. exact src_RawU32_store_eq. Qed.
+Theorem C11_src_RawU16_load_is_model : forall (U : Usize) alt buf index, 0 <= index ->
+  src_RawU16_load_O alt buf index = load_bytes U16 alt buf index.
+Proof. exact @src_RawU16_load_eq. Qed.
+Theorem C11_src_RawU16_store_is_model : forall (U : Usize) alt v buf index, 0 <= index ->
+  (fst (src_RawU16_store_O alt v buf index), res_ok (snd (src_RawU16_store_O alt v buf index))) = store_bytes U16 alt v buf index.
+Proof. exact @src_RawU16_store_eq. Qed.
+Theorem C11_src_RawU24_load_is_model : forall (U : Usize) alt buf index, 0 <= index ->
+  src_RawU24_load_O alt buf index = load_bytes U24 alt buf index.
+Proof. exact @src_RawU24_load_eq. Qed.
+Theorem C11_src_RawU24_store_is_model : forall (U : Usize) alt v buf index, 0 <= index ->
+  (fst (src_RawU24_store_O alt v buf index), res_ok (snd (src_RawU24_store_O alt v buf index))) = store_bytes U24 alt v buf index.
+Proof. exact @src_RawU24_store_eq. Qed.
+Theorem C11_src_RawU32_load_is_model : forall (U : Usize) alt buf index, 0 <= index ->
+  src_RawU32_load_O alt buf index = load_bytes U32 alt buf index.
+Proof. exact @src_RawU32_load_eq. Qed.
+Theorem C11_src_RawU32_store_is_model : forall (U : Usize) alt v buf index, 0 <= index ->
+  (fst (src_RawU32_store_O alt v buf index), res_ok (snd (src_RawU32_store_O alt v buf index))) = store_bytes U32 alt v buf index.
+Proof. exact @src_RawU32_store_eq. Qed.
 
 Example C11_src_bytes_nonvacuous :
-  src_RawU16_load_O true [1; 2; 3; 4] 1 = Some 772 /\ src_RawU24_load_O false [1; 2; 3; 4; 5; 6] 1 = Some 394500 /\
-  fst (src_RawU32_store_O false 16909060 [9; 9; 9; 9; 9] 0) = [4; 3; 2; 1; 9] /\
-  res_ok (snd (src_RawU16_store_O true 7 [0; 0; 0] 1)) = false /\ src_RawU32_load_O false [1; 2; 3; 4] 4611686018427387904 = None.
+  src_RawU16_load_O (U__ := usize_w_of (U := usize64)) true [1; 2; 3; 4] 1 = Some 772 /\
+  src_RawU24_load_O (U__ := usize_w_of (U := usize64)) false [1; 2; 3; 4; 5; 6] 1 = Some 394500 /\
+  fst (src_RawU32_store_O (U__ := usize_w_of (U := usize64)) false 16909060 [9; 9; 9; 9; 9] 0) = [4; 3; 2; 1; 9] /\
+  res_ok (snd (src_RawU16_store_O (U__ := usize_w_of (U := usize64)) true 7 [0; 0; 0] 1)) = false /\
+  src_RawU32_load_O (U__ := usize_w_of (U := usize64)) false [1; 2; 3; 4] 4611686018427387904 = None /\
+  src_RawU32_load_O (U__ := usize_w_of (U := usize16)) false [1; 2; 3; 4] 16384 = None /\
+  load_bytes (U := usize16) U32 false [1; 2; 3; 4] 16384 = None.
 Proof. repeat split; vm_compute; reflexivity. Qed.
